@@ -10,6 +10,8 @@ import (
 	"sort"
 	"strings"
 	"time"
+
+	"golang.org/x/tools/go/ssa"
 )
 
 // propInfo describes one property check.
@@ -100,6 +102,9 @@ func runProp(c *Ctx, p *propInfo, verif, only string, list bool) (code int) {
 	if code != -1 {
 		return code
 	}
+	if c.Tier == "thorough" && only == "" {
+		runExtraConfigs(c, p)
+	}
 	if only != "" {
 		var keep []*Obligation
 		for _, o := range c.obs {
@@ -127,4 +132,58 @@ func runProp(c *Ctx, p *propInfo, verif, only string, list bool) (code int) {
 		}
 	}
 	return c.finish(verif, p.explanation, append(append([]string{}, commonAssumptions...), p.assumptions...), p.notDecided)
+}
+
+// extraConfigs are the additional build configurations of the thorough tier:
+// they change the file set (build-tagged variants) or the word size.
+var extraConfigs = [][2]string{{"linux", "arm64"}, {"linux", "386"}, {"darwin", "amd64"}}
+
+// runExtraConfigs re-loads the repository for other GOOS/GOARCH and re-decides
+// the property there; obligations are merged under a configuration prefix.
+func runExtraConfigs(c *Ctx, p *propInfo) {
+	for _, cfg := range extraConfigs {
+		name := cfg[0] + "/" + cfg[1]
+		m, err := loadModule(c.Repo, false, nil, "GOOS="+cfg[0], "GOARCH="+cfg[1], "CGO_ENABLED=0")
+		if err != nil {
+			c.note("configuration %s: not analysed (%v)", name, firstLine(err.Error()))
+			continue
+		}
+		m.funcs()
+		c2 := &Ctx{Repo: c.Repo, Tier: "quick", Prop: c.Prop, Start: c.Start, M: m}
+		ok := func() (ok bool) {
+			defer func() {
+				if r := recover(); r != nil {
+					c.note("configuration %s: not analysed (%v)", name, r)
+					ok = false
+				}
+			}()
+			adaptLocks, allLocksLA = nil, nil
+			genEffMemo = map[*ssa.Function]genEffects{}
+			p.run(c2)
+			return true
+		}()
+		adaptLocks, allLocksLA = nil, nil
+		genEffMemo = map[*ssa.Function]genEffects{}
+		if !ok {
+			continue
+		}
+		c.configs = append(c.configs, name+" (whole module re-analysed)")
+		for _, o := range c2.obs {
+			o.Key = o.Rule + ":" + name + ":" + strings.TrimPrefix(o.Key, o.Rule+":")
+			c.obs = append(c.obs, o)
+		}
+	}
+	if len(c.configs) > 0 {
+		c.configs = append([]string{"linux/amd64 (default build configuration)"}, c.configs...)
+	}
+}
+
+func firstLine(s string) string {
+	if i := strings.IndexByte(s, '\n'); i >= 0 {
+		s = s[:i]
+	}
+	if len(s) > 200 {
+		s = s[:200]
+	}
+	return s
 }
